@@ -6,6 +6,7 @@
       (r / h / d) ↦ 1 and every other state ↦ 0, for every dimension 2, 3, 4           (§2)
     * sampling distributions sum to one                                                 (§2)
     * detection errors: independent bit flips at the configured rates                  (§3)
+    * state-preparation errors: the bad atoms loaded for a run are the ones drawn       (§3b)
     * evaluation-time bookkeeping between the V2 backend and the legacy emulator: the
       relative→µs→relative round trip, the matching tolerance, the list handed to
       `set_evaluation_times` (sorted, duplicate free, inside the sequence)              (§6)
@@ -104,6 +105,33 @@ theorem flip_kernel_marginal (eps epsp : Rat) (b : List Bool) (i : Nat) (hi : i 
 
 example : flip1 (1/10) (1/5) false true = 1/10 ∧ flip1 (1/10) (1/5) true false = 1/5 := by decide +kernel
 example : applyKernel 1 (1/10) (1/5) [1/2, 1/2] = [11/20, 9/20] := by decide +kernel
+
+/-! ## State-preparation errors -/
+
+/-- **State preparation (part of "all noise configurations"; legacy ≡ V2 share this path).**  In the
+state-preparation-only path of `_noisy_runs` the configuration drawn for a run is turned into a
+string (to count identical runs) and back: the atoms loaded as badly prepared are exactly the
+ones drawn. -/
+theorem state_prep_roundtrip (eta : Rat) (u : List Rat) :
+    decodeConfig (encodeConfig (drawBad eta u)) = drawBad eta u :=
+  decode_encode _
+
+/-- **Finding F36 (repaired in the tree; a statement about the OLD expression).**
+`np.array(list("01")).astype(bool)` is `[True, True]` under numpy 2: every atom was marked badly
+prepared in every run, whatever had been drawn. -/
+theorem state_prep_old_counterexample :
+    decodeConfigOld (encodeConfig (drawBad (3/10) [1/2, 1/10])) = [true, true] ∧
+    drawBad (3/10) [1/2, 1/10] = [false, true] := by
+  decide +kernel
+
+/-- The configurations carry the product distribution "each atom badly prepared with probability
+`eta`, independently": the weights sum to one and each atom is bad with total weight `eta`. -/
+theorem state_prep_distribution (eta : Rat) (n : Nat) :
+    ((allBits n).map (configWeight eta)).sum = 1 ∧
+    ∀ i, i < n → (((allBits n).filter fun c => c.getD i false == true).map (configWeight eta)).sum = eta :=
+  ⟨configWeight_sum_one eta n, fun i hi => configWeight_marginal eta n i hi⟩
+
+example : configWeight (3/10) [false, true] = 21/100 := by decide +kernel
 
 /-! ## Evaluation times between the V2 backend and the legacy emulator -/
 
